@@ -210,6 +210,79 @@ theorem C08_slice_len (l : LenV) :
 /-- the defect repaired by commit 3680f45: before it, `slice_len` of the largest 9-byte compact size panicked -/
 theorem C08_slice_len_old_panics : (LenV.sliceLenOld ⟨9, 2 ^ 64 - 1⟩).isPanic = true := by decide
 
+/-- wide arm of `parse_len` written out -/
+theorem parseLen_wide (base : Nat) (m : UInt8) (t : Bytes) (w : Nat) (_hw : w = 8 ∨ w = 4 ∨ w = 2) :
+    (do let rest ← (⟨base, m :: t⟩ : Slice).from_ 1
+        let (v, _) ← Num.parse w rest
+        Num.toLen w v : Res LenV) =
+    if t.length < w then .err .moreBytesNeeded else Num.toLen w ⟨t.take w⟩ := by
+  have h1 : (⟨base, m :: t⟩ : Slice).from_ 1 = .ok ⟨base + 1, t⟩ := by
+    simp [Slice.from_, Slice.len]
+  rw [h1]
+  simp only [Res.bind_ok]
+  unfold Num.parse Slice.splitAtChecked Slice.splitAt Slice.len
+  by_cases hl : t.length < w
+  · simp [hl]
+  · have hl' : w ≤ t.length := by omega
+    simp only [hl, if_false, hl', if_true]
+    have : (t.take w).length = w := by simp; omega
+    simp [Slice.len, this]
+
+/-- (viii) the deprecated decoder `parse_len` and the incremental decoder `scan_len` agree on every input -/
+theorem C08_agree (s : Slice) :
+    parseLen s = (match scanLen s 0 with
+      | (.ok n, c) => .ok ⟨c, n⟩
+      | (.err e, _) => .err e
+      | (.panic p, _) => .panic p) := by
+  obtain ⟨base, bs⟩ := s
+  cases bs with
+  | nil => simp [parseLen, scanLen, Slice.first?]
+  | cons x t =>
+    have wide : ∀ w min, (w = 8 ∧ min = 0x100000000) ∨ (w = 4 ∧ min = 0x10000) ∨ (w = 2 ∧ min = 0xFD) →
+        (if t.length < w then Res.err Error.moreBytesNeeded else Num.toLen w ⟨t.take w⟩) =
+        (match scanWide ⟨base, x :: t⟩ 0 w min with
+          | (.ok n, c) => .ok ⟨c, n⟩
+          | (.err e, _) => .err e
+          | (.panic p, _) => .panic p) := by
+      intro w min hwm
+      by_cases hl : t.length < w
+      · rw [if_pos hl, scanWide_short _ _ _ _ _ (by simp; omega)]
+      · rw [if_neg hl]
+        have hsplit : x :: t = x :: (t.take w ++ t.drop w) := by simp
+        rw [hsplit, scanWide_cons _ _ _ _ _ _ _ (by simp; omega : (t.take w).length = w)]
+        rcases hwm with ⟨rfl, rfl⟩ | ⟨rfl, rfl⟩ | ⟨rfl, rfl⟩
+        · simp only [Num.toLen, if_true]
+          by_cases hm : leN (t.take 8) ≥ 0x100000000
+          · have : leN (t.take 8) > 0xFFFFFFFF := by omega
+            simp [hm, this, addU, USIZE]
+          · have : ¬ leN (t.take 8) > 0xFFFFFFFF := by omega
+            simp [hm, this]
+        · simp only [Num.toLen, show ¬ (4 = 8) by decide, if_false, if_true]
+          by_cases hm : leN (t.take 4) ≥ 0x10000
+          · have : leN (t.take 4) > 0xFFFF := by omega
+            simp [hm, this, addU, USIZE]
+          · have : ¬ leN (t.take 4) > 0xFFFF := by omega
+            simp [hm, this]
+        · simp only [Num.toLen, show ¬ (2 = 8) by decide, show ¬ (2 = 4) by decide, if_false]
+          by_cases hm : leN (t.take 2) ≥ 0xFD
+          · simp [hm, addU, USIZE]
+          · simp [hm]
+    unfold parseLen scanLen
+    simp only [Slice.first?, List.head?_cons]
+    by_cases x1 : x = 0xFF
+    · simp only [x1, if_true]
+      rw [parseLen_wide _ _ _ _ (Or.inl rfl)]
+      exact x1 ▸ wide 8 _ (Or.inl ⟨rfl, rfl⟩)
+    · by_cases x2 : x = 0xFE
+      · simp only [x1, x2, if_true, if_false, show ¬ ((0xFE : UInt8) = 0xFF) by decide]
+        rw [parseLen_wide _ _ _ _ (Or.inr (Or.inl rfl))]
+        exact x2 ▸ wide 4 _ (Or.inr (Or.inl ⟨rfl, rfl⟩))
+      · by_cases x3 : x = 0xFD
+        · simp only [x3, if_true, if_false, show ¬ ((0xFD : UInt8) = 0xFF) by decide, show ¬ ((0xFD : UInt8) = 0xFE) by decide]
+          rw [parseLen_wide _ _ _ _ (Or.inr (Or.inr rfl))]
+          exact x3 ▸ wide 2 _ (Or.inr (Or.inr ⟨rfl, rfl⟩))
+        · simp [x1, x2, x3, addU, USIZE]
+
 /-- non-vacuity: the hypotheses of completeness / non-minimality are met by concrete inputs -/
 example : scanLen ⟨0, encCompact 0x12345 ++ [7]⟩ 5 = (.ok 0x12345, 10) := by decide
 example : NonMinimalCompact [0xFD, 0x01, 0x00] := Or.inl ⟨[0x01, 0x00], rfl, by decide, rfl⟩
